@@ -125,6 +125,9 @@ func onOrUnder(p string, excl []string) bool {
 
 var obf = obfuscation.Obfuscator{Hasher: obfuscation.MD5Hasher{}}
 
+// digestLeaf: a value that looks like the hasher's own output (an API key, a session id)
+const digestLeaf = `"0123456789abcdef0123456789abcdef"`
+
 var hashCache = map[string]string{}
 
 // hashOf is what the obfuscator itself produces for that leaf when it stands alone
@@ -300,7 +303,8 @@ func TestCheck(t *testing.T) {
 		if ks[1] == "b" {
 			docs = append(docs, gen(2, leaves)...)
 		} else {
-			docs = append(docs, gen(2, []string{`"s"`, `7`})...)
+			// (in this family the string leaf is shaped like a digest: 32 hex characters)
+			docs = append(docs, gen(2, []string{digestLeaf, `7`})...)
 		}
 		// depth 3: wrap every depth-2 document in an object, a two-key object and an array
 		for _, d := range gen(2, []string{`"s"`, `7`}) {
